@@ -227,6 +227,18 @@ pub enum Dyn {
     Bytes(bytes::Bytes),
     Uuid(uuid::Uuid),
     BigInt(BigInt),
+    BigDec(bigdecimal::BigDecimal),
+    Weekday(chrono::Weekday),
+    Month(chrono::Month),
+    FixedOffset(chrono::FixedOffset),
+    Tz(chrono_tz::Tz),
+    DtUtc(chrono::DateTime<chrono::Utc>),
+    NDate(chrono::NaiveDate),
+    NTime(chrono::NaiveTime),
+    NDt(chrono::NaiveDateTime),
+    DtLocal(chrono::DateTime<chrono::Local>),
+    DtFixed(chrono::DateTime<chrono::FixedOffset>),
+    DtTz(chrono::DateTime<chrono_tz::Tz>),
     Opt(Option<Box<Dyn>>),
     Res(std::result::Result<Box<Dyn>, Box<Dyn>>),
     Tup(Vec<Dyn>),
@@ -301,6 +313,10 @@ impl Ord for Dyn {
             (Bytes(a), Bytes(b)) => a.cmp(b),
             (Uuid(a), Uuid(b)) => a.cmp(b),
             (BigInt(a), BigInt(b)) => a.cmp(b),
+            (DtUtc(a), DtUtc(b)) => a.cmp(b),
+            (NDate(a), NDate(b)) => a.cmp(b),
+            (NTime(a), NTime(b)) => a.cmp(b),
+            (NDt(a), NDt(b)) => a.cmp(b),
             (ByteVec(a), ByteVec(b)) | (ByteSlice(a), ByteSlice(b)) | (ByteArr(a), ByteArr(b)) => a.cmp(b),
             (Opt(Some(a)), Opt(Some(b))) => a.cmp(b),
             (Res(Ok(a)), Res(Ok(b))) | (Res(Err(a)), Res(Err(b))) => a.cmp(b),
@@ -353,6 +369,34 @@ fn bytes_of(s: &Sx) -> Vec<u8> {
     unhex(&a[1..])
 }
 
+fn weekday_of(n: u8) -> chrono::Weekday {
+    use chrono::Weekday::*;
+    [Mon, Tue, Wed, Thu, Fri, Sat, Sun][(n - 1) as usize]
+}
+fn ndate_of(s: &Sx) -> chrono::NaiveDate {
+    let l = items(s);
+    chrono::NaiveDate::from_ymd_opt(num(&l[0], 'z'), num(&l[1], 'n'), num(&l[2], 'n')).expect("date")
+}
+fn ntime_of(s: &Sx) -> chrono::NaiveTime {
+    let l = items(s);
+    chrono::NaiveTime::from_hms_nano_opt(num(&l[0], 'n'), num(&l[1], 'n'), num(&l[2], 'n'), num(&l[3], 'n')).expect("time")
+}
+fn ndt_of(s: &Sx) -> chrono::NaiveDateTime {
+    let l = items(s);
+    chrono::NaiveDateTime::new(ndate_of(&l[0]), ntime_of(&l[1]))
+}
+fn show_ndate(d: &chrono::NaiveDate) -> String {
+    use chrono::Datelike;
+    format!("(0 z{} n{} n{})", d.year(), d.month(), d.day())
+}
+fn show_ntime(t: &chrono::NaiveTime) -> String {
+    use chrono::Timelike;
+    format!("(0 n{} n{} n{} n{})", t.hour(), t.minute(), t.second(), t.nanosecond())
+}
+fn show_ndt(d: &chrono::NaiveDateTime) -> String {
+    format!("(0 {} {})", show_ndate(&d.date()), show_ntime(&d.time()))
+}
+
 /// Build the typed value from the untyped tree of the case file.
 pub fn build(ty: &Ty, s: &Sx) -> Dyn {
     match ty {
@@ -381,6 +425,34 @@ pub fn build(ty: &Ty, s: &Sx) -> Dyn {
             "bytes" => Dyn::Bytes(bytes::Bytes::from(bytes_of(s))),
             "uuid" => Dyn::Uuid(uuid::Uuid::from_bytes(bytes_of(s).try_into().expect("16 bytes"))),
             "bigint" => Dyn::BigInt(s.atom()[1..].parse().unwrap()),
+            "bigdec" => Dyn::BigDec(String::from_utf8(bytes_of(s)).unwrap().parse().expect("decimal")),
+            "weekday" => Dyn::Weekday(weekday_of(num(s, 'n'))),
+            "month" => Dyn::Month(chrono::Month::try_from(num::<u8>(s, 'n')).expect("month")),
+            "fixedoffset" => Dyn::FixedOffset(chrono::FixedOffset::east_opt(num(s, 'z')).expect("offset")),
+            "tz" => Dyn::Tz(String::from_utf8(bytes_of(s)).unwrap().parse().expect("tz name")),
+            "dt_utc" => {
+                let l = items(s);
+                Dyn::DtUtc(chrono::DateTime::<chrono::Utc>::from_timestamp(num(&l[0], 'z'), num(&l[1], 'n')).expect("timestamp"))
+            }
+            "ndate" => Dyn::NDate(ndate_of(s)),
+            "ntime" => Dyn::NTime(ntime_of(s)),
+            "ndt" => Dyn::NDt(ndt_of(s)),
+            "dt_local" => {
+                use chrono::TimeZone;
+                Dyn::DtLocal(chrono::Local.from_local_datetime(&ndt_of(s)).single().expect("local time"))
+            }
+            "dt_fixed" => {
+                use chrono::TimeZone;
+                let l = items(s);
+                let off = chrono::FixedOffset::east_opt(num(&l[1], 'z')).expect("offset");
+                Dyn::DtFixed(off.from_local_datetime(&ndt_of(&l[0])).single().expect("fixed-offset time"))
+            }
+            "dt_tz" => {
+                use chrono::TimeZone;
+                let l = items(s);
+                let tz: chrono_tz::Tz = String::from_utf8(bytes_of(&l[1])).unwrap().parse().expect("tz name");
+                Dyn::DtTz(tz.from_utc_datetime(&ndt_of(&l[0])))
+            }
             _ => panic!("unsupported prim {p}"),
         },
         Ty::Opt(t) => match tag(s) {
@@ -484,6 +556,18 @@ pub fn print_val(v: &Dyn, canonical: bool) -> String {
         Dyn::Bytes(b) => format!("b{}", hex(b)),
         Dyn::Uuid(u) => format!("b{}", hex(u.as_bytes())),
         Dyn::BigInt(b) => format!("z{b}"),
+        Dyn::BigDec(b) => format!("b{}", hex(b.to_string().as_bytes())),
+        Dyn::Weekday(w) => format!("n{}", w.number_from_monday()),
+        Dyn::Month(m) => format!("n{}", m.number_from_month()),
+        Dyn::FixedOffset(o) => format!("z{}", o.local_minus_utc()),
+        Dyn::Tz(t) => format!("b{}", hex(t.name().as_bytes())),
+        Dyn::DtUtc(d) => format!("(0 z{} n{})", d.timestamp(), d.timestamp_subsec_nanos()),
+        Dyn::NDate(d) => show_ndate(d),
+        Dyn::NTime(t) => show_ntime(t),
+        Dyn::NDt(d) => show_ndt(d),
+        Dyn::DtLocal(d) => show_ndt(&d.naive_local()),
+        Dyn::DtFixed(d) => format!("(0 {} z{})", show_ndt(&d.naive_local()), d.offset().local_minus_utc()),
+        Dyn::DtTz(d) => format!("(0 {} b{})", show_ndt(&d.naive_utc()), hex(d.timezone().name().as_bytes())),
         Dyn::Opt(None) => "(0)".into(),
         Dyn::Opt(Some(x)) => format!("(1 {})", p(x)),
         Dyn::Res(Err(x)) => format!("(0 {})", p(x)),
@@ -583,6 +667,18 @@ impl BinarySerializer for Dyn {
             Dyn::Bytes(x) => x.serialize(c),
             Dyn::Uuid(x) => x.serialize(c),
             Dyn::BigInt(x) => x.serialize(c),
+            Dyn::BigDec(x) => x.serialize(c),
+            Dyn::Weekday(x) => x.serialize(c),
+            Dyn::Month(x) => x.serialize(c),
+            Dyn::FixedOffset(x) => x.serialize(c),
+            Dyn::Tz(x) => x.serialize(c),
+            Dyn::DtUtc(x) => x.serialize(c),
+            Dyn::NDate(x) => x.serialize(c),
+            Dyn::NTime(x) => x.serialize(c),
+            Dyn::NDt(x) => x.serialize(c),
+            Dyn::DtLocal(x) => x.serialize(c),
+            Dyn::DtFixed(x) => x.serialize(c),
+            Dyn::DtTz(x) => x.serialize(c),
             Dyn::Opt(x) => x.serialize(c),
             Dyn::Res(x) => x.serialize(c),
             Dyn::Tup(xs) => ser_tuple(xs, c),
@@ -744,6 +840,18 @@ pub fn decode(ty: &Ty, c: &mut DeserializationContext<'_>) -> Result<Dyn> {
             "bytes" => Dyn::Bytes(bytes::Bytes::deserialize(c)?),
             "uuid" => Dyn::Uuid(uuid::Uuid::deserialize(c)?),
             "bigint" => Dyn::BigInt(BigInt::deserialize(c)?),
+            "bigdec" => Dyn::BigDec(bigdecimal::BigDecimal::deserialize(c)?),
+            "weekday" => Dyn::Weekday(chrono::Weekday::deserialize(c)?),
+            "month" => Dyn::Month(chrono::Month::deserialize(c)?),
+            "fixedoffset" => Dyn::FixedOffset(chrono::FixedOffset::deserialize(c)?),
+            "tz" => Dyn::Tz(chrono_tz::Tz::deserialize(c)?),
+            "dt_utc" => Dyn::DtUtc(chrono::DateTime::<chrono::Utc>::deserialize(c)?),
+            "ndate" => Dyn::NDate(chrono::NaiveDate::deserialize(c)?),
+            "ntime" => Dyn::NTime(chrono::NaiveTime::deserialize(c)?),
+            "ndt" => Dyn::NDt(chrono::NaiveDateTime::deserialize(c)?),
+            "dt_local" => Dyn::DtLocal(chrono::DateTime::<chrono::Local>::deserialize(c)?),
+            "dt_fixed" => Dyn::DtFixed(chrono::DateTime::<chrono::FixedOffset>::deserialize(c)?),
+            "dt_tz" => Dyn::DtTz(chrono::DateTime::<chrono_tz::Tz>::deserialize(c)?),
             _ => panic!("unsupported prim {p}"),
         }),
         Ty::Opt(t) => {
